@@ -109,7 +109,11 @@ func (e *Eng) evalSpec(st *State, x *SExpr, env map[string]*Val, old map[string]
 		if fn.Kind == SIdent {
 			switch fn.Name {
 			case "old":
-				return e.evalSpec(st, x.Args[1], old, old)
+				ost := st
+				if e.oldState != nil {
+					ost = e.oldState
+				}
+				return e.evalSpec(ost, x.Args[1], old, old)
 			case "len":
 				v := e.evalSpec(st, x.Args[1], env, old)
 				if v.Sort == "Str" {
@@ -134,6 +138,24 @@ func (e *Eng) evalSpec(st *State, x *SExpr, env map[string]*Val, old map[string]
 			case "asInt":
 				a := e.evalSpec(st, x.Args[1], env, old)
 				return scalar("(iint "+a.T+")", "Int", nil)
+			case "isZero":
+				a := e.evalSpec(st, x.Args[1], env, old)
+				if a.Sort == "Int" && a.Go != nil {
+					if p, ok := a.Go.Underlying().(*types.Pointer); ok {
+						if _, ok := p.Elem().Underlying().(*types.Struct); ok {
+							name, _ := e.heapName("F$", p.Elem())
+							_ = name
+							var conj []string
+							stt := p.Elem().Underlying().(*types.Struct)
+							for i := 0; i < stt.NumFields(); i++ {
+								fv := e.heapRead(st, a.Go, stt.Field(i).Name(), a.T, stt.Field(i).Type())
+								conj = append(conj, e.zeroPred(fv))
+							}
+							return scalar("(and true "+strings.Join(conj, " ")+")", "Bool", nil)
+						}
+					}
+				}
+				return scalar(e.zeroPred(a), "Bool", nil)
 			case "asBool":
 				a := e.evalSpec(st, x.Args[1], env, old)
 				return scalar("(ibool "+a.T+")", "Bool", nil)
@@ -150,10 +172,23 @@ func (e *Eng) evalSpec(st *State, x *SExpr, env map[string]*Val, old map[string]
 				// uninterpreted spec function over ints/strs declared on demand
 				var args []string
 				var sorts []string
+				var flat func(v *Val)
+				flat = func(v *Val) {
+					switch v.Sort {
+					case "Slice", "Struct", "Tuple":
+						for _, el := range v.Elems {
+							flat(el)
+						}
+					case "Nil":
+						args = append(args, "0")
+						sorts = append(sorts, "Int")
+					default:
+						args = append(args, v.T)
+						sorts = append(sorts, v.Sort)
+					}
+				}
 				for _, a := range x.Args[1:] {
-					v := e.evalSpec(st, a, env, old)
-					args = append(args, v.T)
-					sorts = append(sorts, v.Sort)
+					flat(e.evalSpec(st, a, env, old))
 				}
 				rs := "Int"
 				for _, q := range e.decls {
@@ -344,4 +379,27 @@ func counterSum(st *State, name string) string {
 		t = "(+ " + t + " " + st.counters[k] + ")"
 	}
 	return t
+}
+
+// zeroPred: the value is the zero value of its type (every component, recursively).
+func (e *Eng) zeroPred(v *Val) string {
+	switch v.Sort {
+	case "Int":
+		return "(= " + v.T + " 0)"
+	case "Bool":
+		return "(not " + v.T + ")"
+	case "Str":
+		return "(= (slen " + v.T + ") 0)"
+	case "Iface":
+		return "(= (itag " + v.T + ") 0)"
+	case "Slice":
+		return "(= " + v.Elems[0].T + " 0)"
+	case "Struct", "Tuple":
+		parts := []string{"true"}
+		for _, el := range v.Elems {
+			parts = append(parts, e.zeroPred(el))
+		}
+		return "(and " + strings.Join(parts, " ") + ")"
+	}
+	return "true"
 }
